@@ -72,18 +72,9 @@ Definition vegas_set (v : vegas) (e nl : f64) (pc : Z) (j : f64) : vegas :=
 Definition vegas_should_probe (v : vegas) (pc : Z) : bool :=
   to_int (mul (mul (v_jitter v) (of_int (v_mult v))) (v_est v)) <=? pc.
 
-Definition vegas_step (v : vegas) (s : sample) : option (out vegas) :=
-  let em := common_sample (s_rtt s) (s_inflight s) (s_drop s) in
-  let pc := v_pcount v + 1 in
-  let frtt := of_int (s_rtt s) in
-  if vegas_should_probe v pc then
-    Some (mk (vegas_set v (v_est v) (min_add zero frtt) 0 (of_bits (s_draw s))) [] em 1)
-  else if feq (v_noload v) zero || flt frtt (v_noload v) then
-    Some (mk (vegas_set v (v_est v) (min_add (v_noload v) frtt) pc (v_jitter v)) [] em 2)
-  else
-    let em := em ++ [(4, v_noload v)] in
+(* the update once the queue size q is known (updateEstimatedLimit) *)
+Definition vegas_update (v : vegas) (s : sample) (pc : Z) (em : list emission) (q : Z) : option (out vegas) :=
     let keep b := Some (mk (vegas_set v (v_est v) (v_noload v) pc (v_jitter v)) [] em b) in
-    let q := to_int (fceil (mul (v_est v) (sub one (div (v_noload v) frtt)))) in
     let fin (newl : option f64) b :=
       match newl with
       | None => None
@@ -105,6 +96,20 @@ Definition vegas_step (v : vegas) (s : sample) : option (out vegas) :=
         else if beta <? q then fin (option_map (sub (v_est v)) lf) 7
         else keep 8
       end.
+
+Definition vegas_queue (v : vegas) (rtt : Z) : Z :=
+  to_int (fceil (mul (v_est v) (sub one (div (v_noload v) (of_int rtt))))).
+
+Definition vegas_step (v : vegas) (s : sample) : option (out vegas) :=
+  let em := common_sample (s_rtt s) (s_inflight s) (s_drop s) in
+  let pc := v_pcount v + 1 in
+  let frtt := of_int (s_rtt s) in
+  if vegas_should_probe v pc then
+    Some (mk (vegas_set v (v_est v) (min_add zero frtt) 0 (of_bits (s_draw s))) [] em 1)
+  else if feq (v_noload v) zero || flt frtt (v_noload v) then
+    Some (mk (vegas_set v (v_est v) (min_add (v_noload v) frtt) pc (v_jitter v)) [] em 2)
+  else
+    vegas_update v s pc (em ++ [(4, v_noload v)]) (vegas_queue v (s_rtt s)).
 
 (* ---------------- Gradient ---------------- *)
 Record grad := { g_est : f64; g_noload : f64; g_cnt : Z; g_min : Z; g_max : Z; g_s : f64; g_tol : f64; g_int : Z }.
